@@ -18,10 +18,10 @@ namespace MayVerif.Io
   | _ => none
 /-- the kernel tail still carries the coroutine it is going to publish in the slot of `s` -/
 @[grind] def kTok : KPc → Option (Co × Sock)
-  | .start s c _ | .set s c _ _ | .store s c _ | .reg0 s c _ => some (c, s)
+  | .start s c _ | .arm s c _ | .set s c _ _ | .store s c _ | .reg0 s c _ => some (c, s)
   | _ => none
-@[grind] def kHolds : KPc → Option Co | .dis _ c | .ownDis _ c => some c | _ => none
-@[grind] def wHolds : WPc → Option Co | .sDis _ c => some c | _ => none
+@[grind] def kHolds : KPc → Option Co | .dis _ c | .ownDis _ c | .xDis _ c => some c | _ => none
+@[grind] def wHolds : WPc → Option Co | .sDis _ c | .xDis _ c => some c | _ => none
 /-- about to (re-)check / take on socket `s` -/
 @[grind] def kWill : KPc → Sock → Bool
   | .load s' _ _, s | .take s', s => s' == s
@@ -33,6 +33,17 @@ namespace MayVerif.Io
 @[grind] def fPend : WPc → Sock → Bool
   | .fOr s' _, s => s' == s
   | _, _ => false
+
+/-- which code: every invariant below is one of the REPAIRED code (`init`); the branches of `step` that describe the trees without
+    the fixes are there for the labelled defect witnesses and for the replay of those trees -/
+structure Cfg (st : St) : Prop where
+  hF : st.fixFlag = true
+  hD : st.fixDis = true
+  hR : st.regFirst = true
+  hO : st.fixOwn = true
+  hS : st.skipSys = false
+
+theorem cfg_init (co : Co → Bool) : Cfg (init co) := ⟨rfl, rfl, rfl, rfl, rfl⟩
 
 structure Inv1 (st : St) : Prop where
   k0 : ∀ k, st.kpc k ≠ .off → k < st.nk
@@ -50,8 +61,8 @@ structure Inv1 (st : St) : Prop where
   nb : st.bad = false
   nd : st.dup = false
 
-theorem inv1_init (ff fd : Bool) (co : Co → Bool) : Inv1 (initCfg ff fd co) := by
-  constructor <;> simp [initCfg, kTok, kHolds, wHolds, uSock]
+theorem inv1_init (co : Co → Bool) : Inv1 (init co) := by
+  constructor <;> simp [init, initCfg, kTok, kHolds, wHolds, uSock]
 
 structure Inv2 (st : St) : Prop where
   /-- the tail that filled the slot is a real one -/
@@ -63,8 +74,8 @@ structure Inv2 (st : St) : Prop where
   j2 : ∀ s c, st.slot s = some c → st.flag s ≠ 0 →
         kWill (st.kpc (st.lastStore s)) s = true ∨ wWill (st.wpc (st.lastFetch s)) s = true
 
-theorem inv2_init (ff fd : Bool) (co : Co → Bool) : Inv2 (initCfg ff fd co) := by
-  constructor <;> simp [initCfg, phaseOn]
+theorem inv2_init (co : Co → Bool) : Inv2 (init co) := by
+  constructor <;> simp [init, initCfg, phaseOn]
 
 theorem phase_uSock (pc : UPc) (s : Sock) (h : phaseOn pc = some s) : uSock pc = some s := by
   cases pc <;> simp_all [phaseOn, uSock]
@@ -75,18 +86,19 @@ theorem lor_ne_zero (a b : Nat) (h : b ≠ 0) : a ||| b ≠ 0 := by
 
 set_option hygiene false in
 macro "crunch" : tactic => `(tactic| (
-  simp only [kstep, wstep, ustep, estep, resumeU, schedule, disarm, finish, xtakeStep] at hs
+  simp only [kstep, wstep, ustep, estep, resumeU, schedule, disarm, finish, xtakeStep, hF, hD, hR, hO, hS, ↓reduceIte, Bool.true_and, Bool.false_and] at hs
   repeat' (split at hs)
   all_goals (first | contradiction | (simp only [Option.some.injEq] at hs; subst hs; constructor <;> (try simp only []) <;> first | grind | grind (splits := 25)))))
 
 set_option hygiene false in
 macro "crunch2" : tactic => `(tactic| (
-  simp only [kstep, wstep, ustep, estep, resumeU, schedule, disarm, finish, xtakeStep] at hs
+  simp only [kstep, wstep, ustep, estep, resumeU, schedule, disarm, finish, xtakeStep, hF, hD, hR, hO, hS, ↓reduceIte, Bool.true_and, Bool.false_and] at hs
   repeat' (split at hs)
   all_goals (first | contradiction | (simp only [Option.some.injEq] at hs; subst hs; constructor <;> (try simp only []) <;> first | grind [lor_ne_zero, phase_uSock] | grind (splits := 25) [lor_ne_zero, phase_uSock]))))
 
 set_option hygiene false in
 macro "prep2" : tactic => `(tactic| (
+  obtain ⟨hF, hD, hR, hO, hS⟩ := hc
   obtain ⟨k0, lt, ls, lk, lw, lq, wt, ws, wk, ww, wq, u1, nb, nd⟩ := h
   obtain ⟨k1, j1, j2⟩ := h2))
 
@@ -99,11 +111,12 @@ structure Inv4 (st : St) : Prop where
   r4 : ∀ c w, st.loc c = .heldW w → wHolds (st.wpc w) = some c
   r5 : ∀ c, st.loc c = .queued → st.queued c = true
 
-theorem inv4_init (ff fd : Bool) (co : Co → Bool) : Inv4 (initCfg ff fd co) := by
-  constructor <;> simp [initCfg, isWait]
+theorem inv4_init (co : Co → Bool) : Inv4 (init co) := by
+  constructor <;> simp [init, initCfg, isWait]
 
 set_option hygiene false in
 macro "prep4" : tactic => `(tactic| (
+  obtain ⟨hF, hD, hR, hO, hS⟩ := hc
   obtain ⟨k0, lt, ls, lk, lw, lq, wt, ws, wk, ww, wq, u1, nb, nd⟩ := h
   obtain ⟨r0, r1, r2, r3, r4, r5⟩ := h4))
 
